@@ -49,6 +49,15 @@ def flatten (doc : Doc) : Text := joinSep sepNL doc
 def off (doc : Doc) (p : Pos) : Nat :=
   (doc.take p.1).foldl (fun a l => a + l.length + 1) 0 + p.2
 
+/-- Split a byte string into lines at `\n` (inverse of `flatten`). -/
+def splitLines : Text → Doc
+  | [] => [[]]
+  | b :: t =>
+    if b = 10 then [] :: splitLines t
+    else match splitLines t with
+      | [] => [[b]]
+      | l :: ls => (b :: l) :: ls
+
 /-- Apply offset edits `(start, stop, text)` that are sorted and non-overlapping; `pos` is the offset
 of the head of `rest`. -/
 def applyTE : Nat → Text → List (Nat × Nat × Text) → Text
@@ -93,6 +102,36 @@ def autoImportEdits [DecidableEq α] (locs : List (Pos × Pos)) (rnd : α → Te
   (diff old (old ++ [x])).map fun s =>
     (importEdits locs rnd s).map fun ed =>
       if !old.isEmpty && ed.start == ed.stop then { ed with text := sepNL ++ ed.text } else ed
+
+/-- Location of a toplevel change (ast_differ.rs:388-407).  `compute_toplevel_diff` (:350-360) returns a
+`Replace` of the whole toplevel in its only non-`None` branch and `None` otherwise, which
+`wrapped_list_diff` also turns into a `Replace`: toplevel changes are positioned like import
+changes.  With no old toplevel (`Err` path) the insert goes to the end of the last old import, or to
+the document start when there is no import either. -/
+def rangeOfPosT (locsI locsT : List (Pos × Pos)) (ch : Int × Change α) : Pos × Pos :=
+  if locsT.isEmpty then
+    let e := if locsI.isEmpty then ((0, 0) : Pos) else locStop locsI (locsI.length - 1)
+    (e, e)
+  else rangeOfPos locsT ch
+
+def toplevelEdits (locsI locsT : List (Pos × Pos)) (rnd : α → Text) (s : Script α) : List TextEdit :=
+  s.map fun ch => ⟨(rangeOfPosT locsI locsT ch).1, (rangeOfPosT locsI locsT ch).2, changeText rnd ch.2⟩
+
+/-- `compute_module_diff` (ast_differ.rs:362-409) for equal comment stores: import edits, then
+toplevel edits. -/
+def moduleEdits {β : Type} (locsI locsT : List (Pos × Pos)) (rndI : α → Text) (rndT : β → Text)
+    (sI : Script α) (sT : Script β) : List TextEdit :=
+  importEdits locsI rndI sI ++ toplevelEdits locsI locsT rndT sT
+
+/-- `completion::autocomplete_opt`, `ToplevelName` arm (lib.rs:668-714): the completion item for class
+`n` of module `M` carries the auto-import edit unless the name is already available in the document
+(`available` = members of all its imports ++ names of its own toplevels, compared by name only, whatever
+module they come from) or `M` is the builtin root module.  The edit never extends an existing import of
+`M`; it is always a new import line (`autoImportEdits`). -/
+def completionAdditionalEdits [DecidableEq α] {ν : Type} [DecidableEq ν] (locs : List (Pos × Pos))
+    (rnd : α → Text) (imports : List α) (available : List ν) (isRoot : Bool) (n : ν) (x : α) :
+    Option (List TextEdit) :=
+  if available.contains n || isRoot then some [] else autoImportEdits locs rnd imports x
 
 /-! ## Expected text, as chunks -/
 
